@@ -346,7 +346,7 @@ func QuorumFacts(s *common.SrcFile, w io.Writer) error {
 		if e.Kind == "if" && (strings.Contains(e.Text, "failures[") || strings.Contains(e.Text, "canReturnEarly") || e.Text == "!hasMore" || e.Text == "resp.err != nil" || e.Text == "params.alreadyReplicated") {
 			sel = append(sel, e)
 		}
-		if e.Kind == "return" && strings.Contains(e.Text, "writeErrors.ErrOrNil()") {
+		if e.Kind == "return" && (strings.Contains(e.Text, "writeErrors.ErrOrNil()") || strings.Contains(e.Text, "ctx.Err()")) {
 			sel = append(sel, e)
 		}
 	}
